@@ -266,6 +266,7 @@ func runH2(k *kernel.K, focus string) {
 			}
 			if push != nil && pushAt == 0 && !h.End {
 				ops = append(ops, push)
+				ops = append(ops, pushedResponse(k, push)...)
 			}
 			off := 0
 			for j := 0; j < nd; j++ {
@@ -279,6 +280,7 @@ func runH2(k *kernel.K, focus string) {
 				ops = append(ops, d)
 				if push != nil && pushAt == j+1 && !d.End {
 					ops = append(ops, push)
+				ops = append(ops, pushedResponse(k, push)...)
 				}
 				if w.Chance(1, 8) {
 					_, pp := true, http2.PriorityParam{StreamDep: uint32(w.Draw(3) * 2), Weight: uint8(w.Draw(255))}
@@ -527,6 +529,23 @@ func h2Oracle(k *kernel.K, hw *h2World, focus string) {
 			return
 		}
 	}
+	// A PUSH_PROMISE is the first event in the life of the stream it promises: nothing on that stream
+	// may reach the client before it (RFC 7540 section 5.1: frames on an idle stream are a
+	// connection error).
+	promisedAt := map[uint32]int{}
+	for i, e := range cl.Recv {
+		if e.Kind == "push" {
+			promisedAt[e.Promise] = i
+		}
+	}
+	for i, e := range cl.Recv {
+		if e.Stream != 0 && e.Stream%2 == 0 && (e.Kind == "headers" || e.Kind == "data" || e.Kind == "rst") {
+			if at, ok := promisedAt[e.Stream]; !ok || at > i {
+				k.Fail("C08.push_promise", map[string]string{"order": "promised_stream_before_promise"}, "client received a %s frame on promised stream %d before the PUSH_PROMISE that reserves it (PUSH_PROMISE arrived: %v)", e.Kind, e.Stream, ok)
+				break
+			}
+		}
+	}
 	unsent := false
 	for _, e := range []*H2End{cl, sv} {
 		if e.next < len(e.Script) {
@@ -669,3 +688,12 @@ const (
 )
 
 func newNetFor(k *kernel.K) *simnet.Net { return simnet.New(k) }
+
+// pushedResponse: sometimes the server starts the response on the stream it has just promised.
+func pushedResponse(k *kernel.K, push *H2Op) []*H2Op {
+	if !k.W.Chance(1, 2) {
+		return nil
+	}
+	k.Probe("frames_on_promised_stream")
+	return []*H2Op{{Kind: "headers", Stream: push.Promise, End: true, Fields: []hpack.HeaderField{{Name: ":status", Value: "200"}, {Name: "x-pushed", Value: fmt.Sprint(push.Promise)}}}}
+}
